@@ -43,6 +43,10 @@ def plan(tier, seed):
     for i in range(2 if tier == "quick" else 12):
         items.append(dict(date=str(dates[(i * 7) % len(dates)]), k=1000 + i, seed=seed, n_hh=1, rotations=False,
                           all_orders=True, archetype=arch[i % len(arch)]))
+    # historical dates: the computable part of the default targets
+    hist = [datetime.date(2008, 7, 1)] if tier == "quick" else [datetime.date(y, 7, 1) for y in range(1998, 2015, 2)]
+    for i, d in enumerate(hist):
+        items.append(dict(date=str(d), k=3000 + i, seed=seed, n_hh=8, rotations=(tier != "quick"), historical=True))
     # size-dependent code paths: one population with more than 4096 rows (two orders only)
     for i in range(1 if tier == "quick" else 3):
         items.append(dict(date=str(dates[(3 + i * 5) % len(dates)]), k=2000 + i, seed=seed, n_hh=1450, rotations=False, large=True))
@@ -104,7 +108,8 @@ def run_item(item):
         pm = popgen.random_injective(rng, df["p_id"].tolist(), 50000)
         hm = popgen.random_injective(rng, sorted(df["hh_id"].unique().tolist()), 15000)
         df = popgen.relabel(df, pm, {h: v + 1000 for h, v in hm.items()})
-    base, nodes, roots, dag, fn = env.trace(df, params, functions)
+    TARGETS = env.feasible_targets(functions, list(df.columns), data=df, params=params) if item.get("historical") else None
+    base, nodes, roots, dag, fn = env.trace(df, params, functions, TARGETS)
     kinds = env.classify(fn)
     res = dict(date=item["date"], k=item["k"], persons=len(df), households=int(df.hh_id.nunique()),
                pop=popgen.digest(df), runs=0, nodes=len(nodes), nodes_compared=0, noise=0,
@@ -121,7 +126,7 @@ def run_item(item):
             dfp["mietstufe"] = dfp["mietstufe"].astype(float)
             res["runs_with_converted_columns"] = res.get("runs_with_converted_columns", 0) + 1
         try:
-            tr, nodes2, _, _, _ = env.trace(dfp, params, functions)
+            tr, nodes2, _, _, _ = env.trace(dfp, params, functions, TARGETS)
         except Exception as e:  # noqa: BLE001
             res["violations"].append(dict(key=f"exception:{type(e).__name__}", order=name,
                                           what=f"permuted run raises {type(e).__name__}: {str(e)[:200]}"))
